@@ -6,6 +6,8 @@ import DSV.Lemmas.CostDecimal
 import DSV.Lemmas.CostValidate
 import DSV.Cost.Errors
 import DSV.Lemmas.CostErrors
+import DSV.Cost.AggLoop
+import DSV.Lemmas.CostAggLoop
 /-!
 # C19 — work per round is bounded by input size, even for adversarial values  (*partial*)
 
@@ -131,6 +133,76 @@ theorem nested_dearer_than_once (n M : Nat) (h : 2 * (M + 1) < n) :
   have h3 : 2 * ((M + 1) * n) < n * n := by
     rw [← Nat.mul_assoc]; exact Nat.mul_lt_mul_of_pos_right h (by omega)
   omega
+
+/-! ## the stream-aggregation loop of `outcome()` (K8) -/
+
+/-- **With the attempted set** (the repaired `outcome()`): over any list of mentions the loop costs one
+    lookup per mention plus ONE aggregator run per distinct pair it ran — `tried` has no duplicates and
+    holds only mentioned pairs — whether or not the aggregations succeed.  With every run costing at
+    most `C` and `k` distinct pairs mentioned that is at most `|mentions| + k·C`: a sum, not a product. -/
+theorem agg_loop_cost_linear (e : AggLoop.Env) (ms : List Nat) :
+    (AggLoop.run true e ms).tried.Nodup
+    ∧ (∀ p ∈ (AggLoop.run true e ms).tried, p ∈ ms)
+    ∧ (AggLoop.run true e ms).cost = ms.length + ((AggLoop.run true e ms).tried.map e.c).sum :=
+  let h := AggLoop.run_inv e ms
+  ⟨h.nodup, h.sub, h.cost_eq⟩
+
+/-- **Without it** (defect K8): `n` mentions of one pair whose aggregation fails cost `n·(1 + c)` —
+    the cost of one run (set by the longest value a single observer sent) times the number of
+    mentions (set by the channel definitions): a product of two input sizes. -/
+theorem agg_loop_cost_product_without_memo (e : AggLoop.Env) (p n : Nat) (hf : e.succ p = false) :
+    (AggLoop.run false e (List.replicate n p)).cost = n * (1 + e.c p) := by
+  have := (AggLoop.foldl_replicate_failing e p n hf {} (by simp)).1
+  simpa [AggLoop.run] using this
+
+/-- the same mentions with the attempted set: `n + c` -/
+theorem agg_loop_cost_sum_with_memo (e : AggLoop.Env) (p n : Nat) (hn : 0 < n) :
+    (AggLoop.run true e (List.replicate n p)).cost = n + e.c p := by
+  obtain ⟨hnd, hsub, hc⟩ := agg_loop_cost_linear e (List.replicate n p)
+  have hall : ∀ q ∈ (AggLoop.run true e (List.replicate n p)).tried, q = p :=
+    fun q hq => List.eq_of_mem_replicate (hsub q hq)
+  -- the first mention runs the aggregator, so `tried` is exactly `[p]`
+  have hne : (AggLoop.run true e (List.replicate n p)).tried ≠ [] := by
+    obtain ⟨m, rfl⟩ : ∃ m, n = m + 1 := ⟨n - 1, by omega⟩
+    have hfirst : ∀ (ms : List Nat) (s : AggLoop.St), s.tried ≠ [] → (ms.foldl (AggLoop.step true e) s).tried ≠ [] := by
+      intro ms
+      induction ms with
+      | nil => intro s h; exact h
+      | cons q ms ih =>
+        intro s h
+        apply ih
+        unfold AggLoop.step
+        split
+        · exact h
+        · split
+          · exact h
+          · simp
+    rw [AggLoop.run, List.replicate_succ, List.foldl_cons]
+    apply hfirst
+    rw [AggLoop.step_run true e {} p (by simp) (Or.inr (by simp))]
+    simp
+  have htr : (AggLoop.run true e (List.replicate n p)).tried = [p] := by
+    match hm : (AggLoop.run true e (List.replicate n p)).tried, hne with
+    | [q], _ => rw [hall q (by rw [hm]; simp)]
+    | q :: r :: t, _ =>
+      rw [hm] at hnd hall
+      have h1 := hall q (by simp)
+      have h2 := hall r (by simp)
+      rw [h1, h2] at hnd
+      simp at hnd
+  rw [hc, htr]
+  simp
+
+/-- the repair changes no result: both loops store exactly the same aggregates, in the same order -/
+theorem agg_loop_same_aggregates (e : AggLoop.Env) (ms : List Nat) :
+    (AggLoop.run true e ms).stored = (AggLoop.run false e ms).stored :=
+  (AggLoop.foldl_sim e ms {} {} ⟨rfl, by simp⟩).stored_eq
+
+/-- the K8 witness in numbers: 2 000 mentions of a pair whose aggregation fails at 900 000 units a
+    run cost 1.8·10⁹ units without the attempted set and 902 000 with it -/
+example : (AggLoop.run false ⟨fun _ => false, fun _ => 900000⟩ (List.replicate 2000 7)).cost = 2000 * 900001
+    ∧ (AggLoop.run true ⟨fun _ => false, fun _ => 900000⟩ (List.replicate 2000 7)).cost = 902000 :=
+  ⟨agg_loop_cost_product_without_memo _ 7 2000 rfl, agg_loop_cost_sum_with_memo _ 7 2000 (by decide)⟩
 
 /-! ## decimal comparison and conversion -/
 
